@@ -265,6 +265,15 @@ fn run_part(run: &mut Run) {
                 }
                 v
             }, check_text);
+            run.sweep_vec("text-custom-fonts", "three synthetic fonts with character spacing x 7 strings x 16 decorations x 4 baselines x 3 alignments x 2 offsets", || {
+                let mut v = vec![];
+                for tc in text_catalogue_named(&CUSTOM_FONTS, &CUSTOM_STRINGS, &[(1, 100)], (-3, 5)) {
+                    for d in &ds[..2] {
+                        v.push(TCase { t: tc.clone(), d: *d });
+                    }
+                }
+                v
+            }, check_text);
             run.sweep_vec("images", "images 7 raw widths x sizes 0..=4x0..=3 x {none, inner, overlapping, nested} sub-images x new/with_center x offsets", || {
                 let mut v = vec![];
                 for bpp in BPPS {
